@@ -114,7 +114,7 @@ def render(case, idx, rng):
                 t = ('and_then = "%s"' if it["form"] == "str" else "and_then = %s") % fn
         if it["name"] in ("default", "from_word"):
             needs_default = True
-        if it["name"] == "from_ident":
+        if it["name"] == "from_ident" and not any("::core::convert::From<" in h for h in helpers):      # the option may be repeated
             src_ident = (OPTION + "<::syn::Ident>") if d == "FromField" else "::syn::Ident"
             helpers.append("impl%s ::core::convert::From<%s> for %s { fn from(_: %s) -> Self { %s } }" % (g, src_ident, name, src_ident, DEFAULT))
             needs_default = True
